@@ -403,6 +403,11 @@ func c10exec(j run.Job, a *run.Acc) {
 		}
 		d["expected"] = want
 		d["trimmed_end_mode"] = endMode
+		named := run.Hash(in+"named")%3 == 0
+		d["sequence_named"] = named
+		if named {
+			a.Count("cases with a named token sequence", 1)
+		}
 		var node parsley.Node
 		var err error
 		pan := ""
@@ -412,11 +417,16 @@ func c10exec(j run.Job, a *run.Acc) {
 					pan = fmt.Sprint(e)
 				}
 			}()
+			inner := combinator.SeqOf(ps...)
+			if named {
+				// a named token sequence: the name may only replace not-found errors, never a whitespace error
+				inner = inner.Name("the token sequence")
+			}
 			if endMode >= 0 {
-				root := combinator.SeqOf(combinator.SeqOf(ps...), text.LeftTrim(parser.End(), text.WsMode(endMode))).Bind(interpreter.Select(0))
+				root := combinator.SeqOf(inner, text.LeftTrim(parser.End(), text.WsMode(endMode))).Bind(interpreter.Select(0))
 				node, err = parsley.Parse(ctx, root)
 			} else {
-				node, err = parsley.Parse(ctx, combinator.Sentence(combinator.SeqOf(ps...)))
+				node, err = parsley.Parse(ctx, combinator.Sentence(inner))
 			}
 		}()
 		if endMode >= 0 {
